@@ -575,7 +575,7 @@ Proof.
     unfold parse_one.
     assert (Hlk : lookup (rfc_payload_type (pl_body p)) type_2_payload = Some (body_class (pl_body p))).
     { destruct (pl_body p) as [| | i ? ?| | | | | | i ?|]; try destruct i; reflexivity. }
-    rewrite Hlk. unfold bd at 1 2 3. rewrite Hdec.
+    rewrite Hlk. rewrite Hdec.
     rewrite fst_bind, Hdec, fst_bind.
     replace (length pre + N.to_nat (N.of_nat (length bd) + 4))%nat with (length (pre ++ h ++ bd))
       by (rewrite !app_length; lia).
@@ -599,4 +599,182 @@ Proof.
         cbn [ret fst]. rewrite Hp. reflexivity.
       * unfold chain_next, rfc_first. destruct rest; [| reflexivity].
         destruct (pl_body p) as [| | i ? ?| | | | | | i ?|]; try destruct i; try reflexivity; discriminate.
+Qed.
+
+(* ------------------------------------------------------------------------------------------ *)
+(** * The message *)
+
+Definition nibbles : list N := map N.of_nat (seq 0 16).
+Lemma in_nibbles a : (a < 16)%N -> In a nibbles.
+Proof.
+  intros H. unfold nibbles. rewrite <- (N2Nat.id a). apply in_map, in_seq. lia.
+Qed.
+
+Lemma version_table :
+  forallb (fun a => forallb (fun b =>
+    N.eqb (hdr_version_byte a b) (16 * a + b) && N.eqb (hdr_parse_major (16 * a + b)) a
+    && N.eqb (hdr_parse_minor (16 * a + b)) b) nibbles) nibbles = true.
+Proof. vm_compute. reflexivity. Qed.
+
+Lemma version_ok a b : (a < 16)%N -> (b < 16)%N ->
+  hdr_version_byte a b = (16 * a + b)%N /\ hdr_parse_major (16 * a + b) = a /\ hdr_parse_minor (16 * a + b) = b.
+Proof.
+  intros Ha Hb. pose proof version_table as T. rewrite forallb_forall in T.
+  specialize (T a (in_nibbles a Ha)). rewrite forallb_forall in T. specialize (T b (in_nibbles b Hb)).
+  apply andb_true_iff in T as [T T3]. apply andb_true_iff in T as [T1 T2].
+  apply N.eqb_eq in T1, T2, T3. auto.
+Qed.
+
+Lemma flags_ok r v i :
+  hdr_flags_byte r v i = (32 * bit r + 16 * bit v + 8 * bit i)%N
+  /\ hdr_parse_is_response (hdr_flags_byte r v i) = r
+  /\ hdr_parse_can_use_higher_version (hdr_flags_byte r v i) = v
+  /\ hdr_parse_is_initiator (hdr_flags_byte r v i) = i.
+Proof. destruct r, v, i; repeat split; reflexivity. Qed.
+
+Definition hdr_vals (m : message) (first total : N) : list val :=
+  [VB (m_spi_i m); VB (m_spi_r m); VN first; VN (hdr_version_byte (m_major m) (m_minor m)); VN (m_exchange m);
+   VN (hdr_flags_byte (m_is_response m) (m_higher m) (m_is_initiator m)); VN (m_id m); VN total].
+
+Lemma hdr_fits m first total : wf_msg m -> (first < 256)%N -> (total < 4294967296)%N ->
+  fits fmt_Message_to_bytes_0 (hdr_vals m first total).
+Proof.
+  intros (Hi & Hr & Hma & Hmi & Hex & Hid & _) Hf Ht.
+  destruct (version_ok _ _ Hma Hmi) as [Hv _]. destruct (flags_ok (m_is_response m) (m_higher m) (m_is_initiator m)) as [Hfl _].
+  unfold hdr_vals, fmt_Message_to_bytes_0. rewrite Hv, Hfl. fits_tac;
+    destruct (m_is_response m), (m_higher m), (m_is_initiator m); cbn [bit]; lia.
+Qed.
+
+Lemma hdr_rfc m first total : wf_msg m ->
+  pack_bytes fmt_Message_to_bytes_0 (hdr_vals m first total) = rfc_header m first total.
+Proof.
+  intros (Hi & Hr & Hma & Hmi & _).
+  destruct (version_ok _ _ Hma Hmi) as [Hv _]. destruct (flags_ok (m_is_response m) (m_higher m) (m_is_initiator m)) as [Hfl _].
+  unfold hdr_vals, rfc_header. cbn [pack_bytes fmt_Message_to_bytes_0]. rewrite Hv, Hfl, !be4.
+  rewrite app_nil_r. reflexivity.
+Qed.
+
+Lemma rfc_first_lt ps : (rfc_first ps < 256)%N.
+Proof. destruct ps; cbn; [lia | apply rfc_payload_type_lt]. Qed.
+
+Lemma first_type_rfc ps : match ps with q :: _ => pl_type q | [] => Payload_Type_NONE end = rfc_first ps.
+Proof. destruct ps; [reflexivity | apply pl_type_rfc]. Qed.
+
+Section Clear.
+  Variables enc dec : bytes -> bytes -> bytes -> bytes.
+  Variable mac : bytes -> bytes -> bytes.
+
+  Lemma encode_clear_layout m : wf_msg m -> Forall (fun p => body_ok (pl_body p)) (m_payloads m) ->
+    encode_m enc mac None m = ret (rfc_encode m).
+  Proof.
+    intros Hwf Hok. pose proof Hwf as (Hi & Hr & Hma & Hmi & Hex & Hid & Hch & Htot & _).
+    unfold encode_m. rewrite bind_ret_l. rewrite first_type_rfc.
+    fold (hdr_vals m (rfc_first (m_payloads m)) hdr_initial_length).
+    rewrite pack_fits by (apply hdr_fits; [exact Hwf | apply rfc_first_lt | unfold hdr_initial_length; lia]).
+    rewrite bind_ret_l. rewrite (chain_layout _ Hch Hok), bind_ret_l.
+    set (first := rfc_first (m_payloads m)). set (chain := rfc_chain (m_payloads m)) in *.
+    unfold pack_into.
+    set (data := pack_bytes _ _ ++ chain).
+    assert (Hdl : length data = (28 + length chain)%nat).
+    { unfold data. rewrite app_length, pack_bytes_length by (apply hdr_fits; [exact Hwf | apply rfc_first_lt | unfold hdr_initial_length; lia]).
+      reflexivity. }
+    rewrite pack_fits by (unfold fmt_Message_to_bytes_1; unfold len_of in Htot; fits_tac).
+    rewrite bind_ret_l. cbn [pack_bytes fmt_Message_to_bytes_1]. rewrite app_nil_r, be_encode_length.
+    replace (hdr_length_offset + 4 <=? length data)%nat with true by (symmetry; apply Nat.leb_le; unfold hdr_length_offset; lia).
+    unfold rfc_encode. fold first chain. f_equal.
+    rewrite <- (hdr_rfc m first (28 + len_of chain) Hwf).
+    unfold data, hdr_vals. cbn [pack_bytes fmt_Message_to_bytes_0].
+    set (A := m_spi_i m ++ m_spi_r m ++ be_encode 1 first ++ be_encode 1 (hdr_version_byte (m_major m) (m_minor m))
+              ++ be_encode 1 (m_exchange m) ++ be_encode 1 (hdr_flags_byte (m_is_response m) (m_higher m) (m_is_initiator m))
+              ++ be_encode 4 (m_id m)).
+    assert (HA : length A = 24%nat) by (unfold A; rewrite !app_length, !be_encode_length, Hi, Hr; reflexivity).
+    replace (m_spi_i m ++ m_spi_r m ++ be_encode 1 first ++ be_encode 1 (hdr_version_byte (m_major m) (m_minor m))
+             ++ be_encode 1 (m_exchange m) ++ be_encode 1 (hdr_flags_byte (m_is_response m) (m_higher m) (m_is_initiator m))
+             ++ be_encode 4 (m_id m) ++ be_encode 4 hdr_initial_length ++ [])
+      with (A ++ be_encode 4 hdr_initial_length) by (unfold A; rewrite <- !app_assoc, app_nil_r; reflexivity).
+    replace (m_spi_i m ++ m_spi_r m ++ be_encode 1 first ++ be_encode 1 (hdr_version_byte (m_major m) (m_minor m))
+             ++ be_encode 1 (m_exchange m) ++ be_encode 1 (hdr_flags_byte (m_is_response m) (m_higher m) (m_is_initiator m))
+             ++ be_encode 4 (m_id m) ++ be_encode 4 (28 + len_of chain) ++ [])
+      with (A ++ be_encode 4 (28 + len_of chain)) by (unfold A; rewrite <- !app_assoc, app_nil_r; reflexivity).
+    unfold hdr_length_offset. rewrite <- HA at 1. rewrite <- app_assoc, firstn_app_exact.
+    replace (24 + 4)%nat with (length (A ++ be_encode 4 hdr_initial_length)) by (rewrite app_length, be_encode_length; lia).
+    rewrite bind_ret_l.
+    replace (A ++ be_encode 4 hdr_initial_length ++ chain) with ((A ++ be_encode 4 hdr_initial_length) ++ chain)
+      by (rewrite <- app_assoc; reflexivity).
+    rewrite skipn_app_exact.
+    replace (N.of_nat (length ((A ++ be_encode 4 hdr_initial_length) ++ chain))) with (28 + len_of chain)%N
+      by (unfold len_of; rewrite !app_length, be_encode_length; lia).
+    rewrite <- app_assoc. reflexivity.
+  Qed.
+
+  Lemma decode_clear_rfc m : wf_msg m -> Forall (fun p => body_ok (pl_body p)) (m_payloads m) ->
+    decode dec mac None false (rfc_encode m) = Ok m.
+  Proof.
+    intros Hwf Hok. pose proof Hwf as (Hi & Hr & Hma & Hmi & Hex & Hid & Hch & Htot & Henc & Hiv & Hau).
+    unfold decode, decode_m, rfc_encode.
+    set (first := rfc_first (m_payloads m)). set (chain := rfc_chain (m_payloads m)) in *.
+    rewrite <- (hdr_rfc m first (28 + len_of chain) Hwf).
+    assert (Hf : fits fmt_Message_to_bytes_0 (hdr_vals m first (28 + len_of chain)))
+      by (apply hdr_fits; [exact Hwf | apply rfc_first_lt | exact Htot]).
+    change fmt_Message_parse_0 with fmt_Message_to_bytes_0.
+    rewrite bind_unpack_at0 by exact Hf.
+    unfold hdr_vals at 1. cbv beta iota.
+    rewrite fst_bind.
+    replace (slice_from (pack_bytes fmt_Message_to_bytes_0 (hdr_vals m first (28 + len_of chain)) ++ chain) hdr_size)
+      with chain.
+    2:{ unfold slice_from, hdr_size. change 28%nat with (fmt_size fmt_Message_to_bytes_0).
+        rewrite <- (pack_bytes_length _ _ Hf), skipn_app_exact. reflexivity. }
+    unfold parse_payloads.
+    pose proof (payloads_loop_rfc (m_payloads m) (length chain + 2) [] Hch Hok) as Hl.
+    cbn [app length] in Hl. fold chain first in Hl.
+    rewrite Hl by (pose proof (rfc_chain_length_ge (m_payloads m)); fold chain in H; lia).
+    destruct (version_ok _ _ Hma Hmi) as (Hv & Hpma & Hpmi).
+    destruct (flags_ok (m_is_response m) (m_higher m) (m_is_initiator m)) as (_ & Hf1 & Hf2 & Hf3).
+    rewrite Hv, Hpma, Hpmi, Hf1, Hf2, Hf3.
+    destruct (split_last (m_payloads m)) as [[? ?]|]; cbn [ret fst];
+      destruct m; cbn in *; subst; reflexivity.
+  Qed.
+End Clear.
+
+Definition simple_chain (ps : list payload) : Prop := Forall (fun p => simple_body (pl_body p)) ps.
+
+Lemma body_ok_simple ps : wf_chain ps -> simple_chain ps -> Forall (fun p => body_ok (pl_body p)) ps.
+Proof.
+  induction ps as [|p rest IH]; intros Hwf Hs; [constructor|].
+  destruct Hwf as (_ & Hb & _ & _ & Hrest). inversion Hs as [|? ? Hp Hr]; subst.
+  constructor; [| apply IH; assumption].
+  split; [apply body_layout_simple | apply body_roundtrip_simple]; assumption.
+Qed.
+
+Theorem layout_partial enc mac m : wf_msg m -> simple_chain (m_payloads m) ->
+  encode enc mac None m = Ok (rfc_encode m).
+Proof.
+  intros Hwf Hs. unfold encode. rewrite (encode_clear_layout enc enc mac m Hwf); [reflexivity |].
+  apply body_ok_simple; [apply Hwf | exact Hs].
+Qed.
+
+Theorem roundtrip_partial enc dec mac m : wf_msg m -> simple_chain (m_payloads m) ->
+  exists b, encode enc mac None m = Ok b /\ decode dec mac None false b = Ok m.
+Proof.
+  intros Hwf Hs. exists (rfc_encode m). split; [apply layout_partial; assumption|].
+  apply (decode_clear_rfc dec dec mac m Hwf). apply body_ok_simple; [apply Hwf | exact Hs].
+Qed.
+
+(** non-vacuity: an IKE_SA_INIT-like message satisfying the hypotheses *)
+Definition example_msg : message :=
+  mkMessage [1;2;3;4;5;6;7;8]%N [0;0;0;0;0;0;0;0]%N 2 0 34 false false true 0
+    [mkPayload false (B_SA [mkProposal 1 1 [] [mkTransform 1 12 (Some 256%N); mkTransform 2 5 None;
+                                               mkTransform 3 12 None; mkTransform 4 14 None]]);
+     mkPayload false (B_KE 14 [9; 9; 9; 9]%N);
+     mkPayload false (B_NONCE (repeat 7%N 16));
+     mkPayload false (B_NOTIFY 0 16388 [] [1; 2; 3]%N);
+     mkPayload false (B_VENDOR [112; 121]%N)]
+    [] None false.
+
+Lemma example_msg_wf : wf_msg example_msg /\ simple_chain (m_payloads example_msg).
+Proof.
+  split.
+  - unfold wf_msg, example_msg; cbn -[N.lt N.le]. repeat split; try reflexivity; try lia; try discriminate;
+      repeat constructor; cbn; try lia; try discriminate.
+  - unfold simple_chain, example_msg; cbn. repeat constructor.
 Qed.
